@@ -132,6 +132,7 @@ class Workflow(metaclass=WorkflowMeta):
         from workflows.runtime.verbose import VerboseDecorator
 
         from .representation.validate import (
+            _collect_catch_error_handlers,
             _collect_events,
             _ensure_start_event_class,
             _ensure_stop_event_class,
@@ -150,9 +151,19 @@ class Workflow(metaclass=WorkflowMeta):
         # Detect StartEvent issues before StopEvent for clearer guidance
         self._start_event_class = _ensure_start_event_class(step_configs, cls_name)
         self._stop_event_class = _ensure_stop_event_class(step_configs, cls_name)
-        # Populated by _validate(); empty until a successful validation runs.
+        # @catch_error routing tables. They are runtime configuration, so they are
+        # built here as well: with disable_validation=True, _validate() never runs
+        # and failures would otherwise not be routed to their handler. _validate()
+        # rebuilds them (and reports an inconsistent handler set).
         self._catch_error_handlers: dict[str, CatchErrorHandler] = {}
         self._handler_for_step: dict[str, str] = {}
+        try:
+            (
+                self._catch_error_handlers,
+                self._handler_for_step,
+            ) = _collect_catch_error_handlers(step_configs)
+        except WorkflowValidationError:
+            pass
         self._events = _collect_events(step_configs)
         # Resource management
         self._resource_manager = resource_manager or ResourceManager()
